@@ -146,4 +146,24 @@ ImplEnterOK(Ms, m, sh) ==
 
 (* candidates the table can select for the key the entry point builds *)
 ImplSelectable(Ms, m, sh) == ImplEnterOK(Ms, m, sh)
+
+(***************************************************************************)
+(* Beyond the listed properties: what inspect.signature(f) reports          *)
+(* (LazySignature over the analyser).  Positional part, in the order the   *)
+(* code emits it: unnamed required, unnamed optional, named required,      *)
+(* named optional; then the keyword-only names (as sets).                  *)
+(***************************************************************************)
+SeqOfSet(S) ==   \* positions in increasing order
+  LET RECURSIVE Go(_)
+      Go(T) == IF T = {} THEN <<>> ELSE LET x == MinV(T) IN <<x>> \o Go(T \ {x})
+  IN Go(S)
+SigPositional(Ms) ==
+  LET P == 1..MaxPos(Ms)
+      grp(named, req) == SeqOfSet({p \in P : IsNamedPos(Ms, p) = named /\ ReqEverywhere(Ms, p) = req})
+      rec(p) == [name |-> IF IsNamedPos(Ms, p) THEN NameOfPos(Ms, p) ELSE "ARG" \o ToString(p),
+                 kind |-> IF IsNamedPos(Ms, p) THEN "pk" ELSE "po", req |-> ReqEverywhere(Ms, p)]
+      all == grp(FALSE, TRUE) \o grp(FALSE, FALSE) \o grp(TRUE, TRUE) \o grp(TRUE, FALSE)
+  IN [j \in DOMAIN all |-> rec(all[j])]
+SigKwReq(Ms) == {k \in AllKw(Ms) : KwReqEverywhere(Ms, k)}
+SigKwOpt(Ms) == {k \in AllKw(Ms) : ~KwReqEverywhere(Ms, k)}
 =============================================================================
